@@ -10,6 +10,7 @@
   * `return any(T for v in it)`      ->  for v in it: if T: return True / return False        (all(): dual)
   * `return bool(E)` / `not not E`   kept (no rewrite)
   * `yield from (E for v in it if c)` / `yield from <iterable>`  ->  for v in it: [if c:] yield E
+  * `n = A ; while n > B: BODY ; n -= 1`  ->  `for n in range(A, B, -1): BODY`   (counting loops; see _counting_whiles)
   * `for ...: ... else:` untouched
   * `if C: return X` + fall-through `return Y` untouched (paths handle it)
   * `elif` chains are already nested Ifs in the AST
@@ -46,7 +47,7 @@ class _D(ast.NodeTransformer):
                 out.extend(r)
             elif r is not None:
                 out.append(r)
-        return out
+        return _counting_whiles(out)
 
     def generic_visit(self, node):
         for fld in ("body", "orelse", "finalbody"):
@@ -142,6 +143,60 @@ class _D(ast.NodeTransformer):
                            body=[ast.Expr(value=ast.Yield(value=ast.Name(id=var, ctx=ast.Load())))], orelse=[], type_comment=None)
             return _loc(loop, node)
         return node
+
+
+def _counting_whiles(stmts):
+    """`n = A` ; `while n > B: BODY ; n -= 1`   ->   `for n in range(A, B, -1): BODY`   (and the upward / inclusive variants), when
+    BODY does not otherwise assign n, has no `continue` of this loop, the loop has no else, and n is not read after the loop."""
+    out = []
+    i = 0
+    while i < len(stmts):
+        st = stmts[i]
+        new = None
+        if isinstance(st, ast.While) and not st.orelse and out and isinstance(out[-1], ast.Assign) and len(out[-1].targets) == 1 \
+                and isinstance(out[-1].targets[0], ast.Name) and isinstance(st.test, ast.Compare) and len(st.test.ops) == 1 \
+                and isinstance(st.test.left, ast.Name) and st.test.left.id == out[-1].targets[0].id and st.body:
+            n = st.test.left.id
+            last = st.body[-1]
+            op = st.test.ops[0]
+            bound = st.test.comparators[0]
+            step = None
+            if isinstance(last, ast.AugAssign) and isinstance(last.target, ast.Name) and last.target.id == n \
+                    and isinstance(last.value, ast.Constant) and last.value.value == 1:
+                if isinstance(last.op, ast.Sub) and isinstance(op, (ast.Gt, ast.GtE)):
+                    step = -1
+                elif isinstance(last.op, ast.Add) and isinstance(op, (ast.Lt, ast.LtE)):
+                    step = 1
+            body = st.body[:-1]
+
+            def own_continue(nodes):
+                for x in nodes:
+                    if isinstance(x, ast.Continue):
+                        return True
+                    if isinstance(x, (ast.For, ast.While, ast.FunctionDef, ast.AsyncFunctionDef, ast.ClassDef)):
+                        continue
+                    if own_continue(list(ast.iter_child_nodes(x))):
+                        return True
+                return False
+
+            assigns_n = any(isinstance(x, ast.Name) and x.id == n and isinstance(x.ctx, (ast.Store, ast.Del)) for b in body for x in ast.walk(b))
+            reads_after = any(isinstance(x, ast.Name) and x.id == n for later in stmts[i + 1:] for x in ast.walk(later))
+            bound_uses_n = any(isinstance(x, ast.Name) and x.id == n for x in ast.walk(bound))
+            if step is not None and body and not own_continue(body) and not assigns_n and not reads_after and not bound_uses_n:
+                stop = bound
+                if isinstance(op, ast.GtE):
+                    stop = ast.BinOp(left=bound, op=ast.Sub(), right=ast.Constant(value=1))
+                elif isinstance(op, ast.LtE):
+                    stop = ast.BinOp(left=bound, op=ast.Add(), right=ast.Constant(value=1))
+                args = [out[-1].value, stop] + ([ast.UnaryOp(op=ast.USub(), operand=ast.Constant(value=1))] if step == -1 else [])
+                new = _loc(ast.For(target=ast.Name(id=n, ctx=ast.Store()), iter=ast.Call(func=ast.Name(id="range", ctx=ast.Load()), args=args, keywords=[]),
+                                   body=body, orelse=[], type_comment=None), st)
+        if new is not None:
+            out[-1] = new
+        else:
+            out.append(st)
+        i += 1
+    return out
 
 
 def desugar(fnode):
